@@ -156,7 +156,7 @@ ChildRes run_in_child(const Plan &p, const std::string &prop, bool verbose) {
     else if (WIFSIGNALED(st)) cr.crash_kind = fmt("signal%d", WTERMSIG(st));
     else {
         const std::string &t = cr.stderr_text;
-        if (t.find("WRITE of size") != std::string::npos) cr.crash_kind = "asan_write";
+        if (t.find("WRITE of size") != std::string::npos || t.find("caused by a WRITE memory access") != std::string::npos) cr.crash_kind = "asan_write";
         else if (t.find("READ of size") != std::string::npos) cr.crash_kind = "asan_read";
         else if (t.find("runtime error:") != std::string::npos) cr.crash_kind = "ubsan";
         else if (t.find("AddressSanitizer") != std::string::npos) cr.crash_kind = "asan_other";
@@ -190,7 +190,7 @@ std::string crash_clause(const Plan &p, const ChildRes &c) {
 // ---------------------------------------------------------------- minimisation (ddmin over ops, then engine-specific structure)
 Plan minimise(const Plan &start, const std::string &prop, const std::string &clause, uint64_t *runs_used) {
     Plan best = start;
-    uint64_t runs = 0; const uint64_t BUDGET = 700;
+    uint64_t runs = 0; const uint64_t BUDGET = 260;
     auto still = [&](const Plan &q) -> bool {
         if (runs >= BUDGET) return false;
         runs++;
@@ -213,7 +213,7 @@ Plan minimise(const Plan &start, const std::string &prop, const std::string &cla
         }
     };
     const Engine *e = find_engine(start.engine);
-    for (int round = 0; round < 6 && runs < BUDGET; round++) {
+    for (int round = 0; round < 4 && runs < BUDGET; round++) {
         Plan before = best;
         ddmin_ops(false);
         if (!best.ops2.empty()) ddmin_ops(true);
@@ -244,7 +244,7 @@ Plan minimise(const Plan &start, const std::string &prop, const std::string &cla
 
 // ---------------------------------------------------------------- workers
 struct Slot { volatile uint64_t batch, index, done; };
-struct Shared { volatile int stop; Slot slots[64]; };
+struct Shared { volatile int stop; volatile int fails; Slot slots[64]; };
 
 static void worker_main(const std::vector<Batch> &batches, const std::string &prop, uint64_t seed, int tier, int w, int J, uint64_t b0, uint64_t i0,
                         Shared *sh, const std::string &dir, int gen) {
@@ -268,7 +268,10 @@ static void worker_main(const std::vector<Batch> &batches, const std::string &pr
             Result r = e->execute(p, ctx);
             agg.add(p, r);
             sh->slots[w].done++;
-            if (!r.ok() && ff) { fprintf(ff, "%llu %llu %s %s\n", (unsigned long long)b, (unsigned long long)i, r.clause.c_str(), hexs(r.detail).c_str()); fflush(ff); }
+            if (!r.ok() && ff) {
+                fprintf(ff, "%llu %llu %s %s\n", (unsigned long long)b, (unsigned long long)i, r.clause.c_str(), hexs(r.detail).c_str()); fflush(ff);
+                if (__sync_add_and_fetch(&sh->fails, 1) >= 48) sh->stop = 1;      // enough material: the check has failed, do not grind through the rest
+            }
             if (++since >= 4000) { agg.save(aggpath); since = 0; }
         }
     }
@@ -337,7 +340,7 @@ int run_check(const CheckSpec &spec, const RunOptions &opt) {
         bool hung = WIFEXITED(st) && WEXITSTATUS(st) == 78;
         crashes.push_back(Agg::Fail{b, i, hung ? "hang" : "crash", ""});
         if (hung) hangs++;
-        if (crashes.size() >= 8 || hangs >= 3) sh->stop = 1;
+        if (crashes.size() >= 6 || hangs >= 2) sh->stop = 1;
         gen[(size_t)w]++;
         // resume after the run that killed the worker
         uint64_t nb = b, ni = i + (uint64_t)J;
@@ -359,8 +362,11 @@ int run_check(const CheckSpec &spec, const RunOptions &opt) {
     std::set<std::string> seen_clause;
     int infra_fail = 0; uint64_t shrink_runs = 0;
     int handled = 0;
+    std::map<std::string, int> seen_reported;
     for (auto &f : total.fails) {
-        if (handled >= 6) break;
+        if (handled >= 4) break;
+        // the worker already told us the clause (or that it died): look at no more than two runs per reported clause
+        if (++seen_reported[f.clause + "@" + batches[f.batch].engine] > 2) continue;
         const Engine *e = find_engine(batches[f.batch].engine);
         Plan p = e->generate(opt.seed, prop, f.index, opt.tier);         // pure function of the seed
         ChildRes c1 = run_in_child(p, prop, false);
@@ -387,7 +393,15 @@ int run_check(const CheckSpec &spec, const RunOptions &opt) {
         shrink_runs += used;
         ChildRes c3 = run_in_child(m, prop, true);
         std::string clause3 = c3.crashed ? resolve_crash_owner(m, prop, c3) : c3.clause;
-        if (clause3 != clause) { fprintf(g_out, "binsim: GATE FAILED: minimised plan of %s#%llu gives %s instead of %s\n", batches[f.batch].engine.c_str(), (unsigned long long)f.index, clause3.c_str(), clause.c_str()); infra_fail++; continue; }
+        if (clause3 != clause) {
+            // memory corruption can make a shrunk plan behave differently from process to process; the original plan
+            // reproduced twice, so report that one un-minimised rather than a plan that does not replay
+            fprintf(g_out, "binsim: note: minimised plan of %s#%llu gives %s instead of %s in a fresh process; reporting the un-minimised plan\n", batches[f.batch].engine.c_str(), (unsigned long long)f.index, clause3.empty() ? "no failure" : clause3.c_str(), clause.c_str());
+            m = p;
+            c3 = run_in_child(m, prop, true);
+            clause3 = c3.crashed ? resolve_crash_owner(m, prop, c3) : c3.clause;
+            if (clause3 != clause) { fprintf(g_out, "binsim: GATE FAILED: %s#%llu does not reproduce a third time\n", batches[f.batch].engine.c_str(), (unsigned long long)f.index); infra_fail++; continue; }
+        }
         Finding fi; fi.plan = m; fi.clause = clause; fi.detail = c3.detail; fi.stderr_text = c3.stderr_text;
         fi.plan.expect_clause = clause; fi.plan.expect_hash = c3.hash;
         if (e->owned && !e->owned(m)) { fi.info = true; fi.info_reason = "the minimised history no longer contains an operation this property is about (navigation defect: see C06)"; }
@@ -460,8 +474,8 @@ int run_check(const CheckSpec &spec, const RunOptions &opt) {
     { std::string cmd = "rm -rf '" + dir + "'"; if (system(cmd.c_str()) != 0) {} }
     munmap((void *)sh, sizeof(Shared));
     fflush(g_out);
-    if (infra_fail) return 2;
-    return violations ? 1 : 0;
+    if (violations) return 1;
+    return infra_fail ? 2 : 0;
 }
 
 // ---------------------------------------------------------------- shape (for known-finding signatures)
